@@ -459,4 +459,38 @@ Section Tie.
     { intro Hp. specialize (H1 Hp). revert H1. unfold Rabs. destruct (Rcase_abs _); lra. }
     repeat split; lra.
   Qed.
+  (* ---------------------------------------------------------------- reuse of the equation system (quick_setup) *)
+
+  (* every field of the PP unknown that setup_pure_phases fills from the assemblage component (target SI, amount,
+     delta, dissolve_only) is refreshed from the component by quick_setup when the model of the previous
+     calculation is reused; the list is not empty and contains the target SI and the amount *)
+  Lemma quick_setup_refreshes_what_setup_builds :
+      reuse_refreshes_all setup_comp setup_pp quick_comp quick_pp = true /\
+      mem_str "si" (comp_fields setup_comp setup_pp) = true /\
+      mem_str "moles" (comp_fields setup_comp setup_pp) = true /\
+      mem_str "dissolve_only" (comp_fields setup_comp setup_pp) = true.
+  Proof. vm_compute. repeat split; reflexivity. Qed.
+
+  (* semantically: after the PP row of quick_setup the unknown carries the component's target SI, amount and
+     dissolve_only flag of the CURRENT assemblage *)
+  Lemma quick_setup_refreshes_pp : forall e,
+      wp quick_pp e (fun e1 _ =>
+        e1 "x.si" = e (quick_comp ++ ".si") /\
+        e1 "x.moles" = e (quick_comp ++ ".moles") /\
+        (e (quick_comp ++ ".dissolve_only") <> 0 -> e1 "x.dissolve_only" = Q2R c_TRUE) /\
+        (e (quick_comp ++ ".dissolve_only") = 0 -> e1 "x.dissolve_only" = Q2R c_FALSE)).
+  Proof.
+    intros e. unfold quick_pp, quick_comp, c_TRUE, c_FALSE. cbn. q2r.
+    split; intro H; repeat split; intros; try reflexivity; try lra; try contradiction; try tauto.
+  Qed.
+
+  Lemma setup_pure_phases_fills_pp : forall e,
+      wp setup_pp e (fun e1 _ =>
+        e1 "x.si" = e (setup_comp ++ ".si") /\
+        e1 "x.moles" = e (setup_comp ++ ".moles") /\
+        e1 "x.dissolve_only" = e (setup_comp ++ ".dissolve_only")).
+  Proof.
+    intros e. unfold setup_pp, setup_comp. cbn. q2r.
+    repeat split; intros; try reflexivity; try lra; try tauto.
+  Qed.
 End Tie.
